@@ -456,3 +456,7 @@ for _f, _id in ((sib_queue_len, "C19.SIB-queue-len"), (dom_limit, "C19.DOM-limit
     _f.rule_id = _id
 
 RULES = [sib_queue_len, dom_limit, dom_cycle, dom_world, dom_nested]
+
+# control signature of the bookkeeping effects this property depends on (rules/ctrlsig.py)
+from .ctrlsig import make_rule as _ctrl_rule  # noqa: E402
+RULES.append(_ctrl_rule("C19"))
